@@ -27,7 +27,65 @@ def build():
             add("mixed%d_%d_x%d" % (r, b, xr),
                 [("mantissa_radix", r), ("exponent_base", b), ("exponent_radix", xr)],
                 req=["pow2"], types="float", tags=["mixed"])
-    # decimal mantissa sign flags usable without `format`?  (flags need `format`)
+    # ---- syntax flags (C12): singles, defaults switched off, prefix / suffix, pairs, a few triples
+    FL = ["required_integer_digits", "required_fraction_digits", "no_positive_mantissa_sign", "required_mantissa_sign",
+          "no_exponent_notation", "no_positive_exponent_sign", "required_exponent_sign", "no_exponent_without_fraction",
+          "no_special", "case_sensitive_special", "no_integer_leading_zeros", "no_float_leading_zeros",
+          "required_exponent_notation", "case_sensitive_exponent"]
+    for fl in FL:
+        add("syn_" + fl, [(fl, True)], req=["format"], tags=["syntax", "single"])
+    add("syn_no_required_exponent_digits", [("required_exponent_digits", False)], req=["format"], tags=["syntax", "single"])
+    add("syn_no_required_mantissa_digits", [("required_mantissa_digits", False)], req=["format"], tags=["syntax", "single"])
+    add("syn_required_digits", [("required_digits", True)], req=["format"], tags=["syntax", "single"])
+    add("syn_no_required_digits", [("required_digits", False)], req=["format"], tags=["syntax", "single"])
+    PS = ["format", "pow2"]
+    add("syn_prefix_x", [("base_prefix", 120)], req=PS, tags=["syntax", "prefix"])
+    add("syn_suffix_h", [("base_suffix", 104)], req=PS, tags=["syntax", "suffix"])
+    add("syn_prefix_x_cs", [("base_prefix", 120), ("case_sensitive_base_prefix", True)], req=PS, tags=["syntax", "prefix"])
+    add("syn_suffix_h_cs", [("base_suffix", 104), ("case_sensitive_base_suffix", True)], req=PS, tags=["syntax", "suffix"])
+    add("syn_prefix_suffix", [("base_prefix", 120), ("base_suffix", 104)], req=PS, tags=["syntax", "prefix", "suffix"])
+    add("syn_hex_prefix", [("mantissa_radix", 16), ("exponent_base", 2), ("exponent_radix", 10), ("base_prefix", 120)], req=PS,
+        tags=["syntax", "prefix", "hex"])
+    add("syn_prefix_nolz", [("base_prefix", 120), ("no_integer_leading_zeros", True), ("no_float_leading_zeros", True)], req=PS,
+        tags=["syntax", "prefix"])
+    import random
+    rng = random.Random(20260926)
+    pairs = list(itertools.combinations(FL + ["required_digits"], 2))
+    rng.shuffle(pairs)
+    for (a, b) in pairs[:45]:
+        add("syn2_%s__%s" % (a, b), [(a, True), (b, True)], req=["format"], tags=["syntax", "pair"])
+    for _ in range(12):
+        t = rng.sample(FL, 3)
+        add("syn3_" + "__".join(t), [(x, True) for x in t], req=["format"], tags=["syntax", "triple"])
+    # ---- digit separators (C13)
+    SEP = ("digit_separator", 95)
+    kinds = ["internal", "leading", "trailing", "consecutive"]
+    combos = [c for n in range(1, 5) for c in itertools.combinations(kinds, n)]          # 15 combinations
+    for c in combos:
+        add("sep_all_" + "".join(k[0] for k in c), [SEP] + [("%s_digit_separator" % k, True) for k in c], req=["format"],
+            tags=["sep", "uniform"])
+    for comp in ("integer", "fraction", "exponent"):
+        for c in (("internal",), ("leading",), ("trailing",), ("internal", "leading"), ("internal", "leading", "trailing"),
+                  ("internal", "leading", "trailing", "consecutive"), ("internal", "consecutive")):
+            add("sep_%s_%s" % (comp[:3], "".join(k[0] for k in c)),
+                [SEP] + [("%s_%s_digit_separator" % (comp, k), True) for k in c], req=["format"], tags=["sep", "component"])
+    mixed = [(("integer", "internal"), ("fraction", "leading"), ("exponent", "trailing")),
+             (("integer", "leading"), ("fraction", "trailing"), ("exponent", "internal")),
+             (("integer", "trailing"), ("fraction", "internal"), ("exponent", "leading")),
+             (("integer", "internal"), ("integer", "consecutive"), ("fraction", "internal")),
+             (("fraction", "internal"), ("fraction", "consecutive"), ("exponent", "internal"), ("exponent", "consecutive")),
+             (("integer", "leading"), ("integer", "trailing"), ("exponent", "leading"), ("exponent", "trailing"))]
+    for i, m in enumerate(mixed):
+        add("sep_mixed%d" % i, [SEP] + [("%s_%s_digit_separator" % (c, k), True) for (c, k) in m], req=["format"], tags=["sep", "mixed"])
+    add("sep_special", [SEP, ("special_digit_separator", True)], req=["format"], tags=["sep", "special"])
+    add("sep_all_flags", [SEP, ("digit_separator_flags", True)], req=["format"], tags=["sep", "special", "uniform"])
+    add("sep_hex_all", [("from_radix", 16), SEP, ("internal_digit_separator", True), ("leading_digit_separator", True),
+                        ("trailing_digit_separator", True)], req=PS, tags=["sep", "hex"])
+    add("sep_hex_exp_int", [("from_radix", 16), SEP, ("exponent_internal_digit_separator", True),
+                            ("exponent_leading_digit_separator", True)], req=PS, tags=["sep", "hex"])
+    add("sep_apostrophe", [("digit_separator", 39), ("internal_digit_separator", True)], req=["format"], tags=["sep", "uniform"])
+    add("sep_syntax_mix", [SEP, ("internal_digit_separator", True), ("required_digits", True), ("no_special", True)], req=["format"],
+        tags=["sep", "syntax"])
     return F
 
 if __name__ == "__main__":
